@@ -273,6 +273,11 @@ def build(prog: dict) -> dict:
         try:
             new, rename = apply_step(step, cur)
         except Exception as ex:      # noqa: BLE001
+            if type(ex).__name__ == "NameClashError":
+                # the program tagged an input and also uses the untagged one: two
+                # distinct inputs of one name -- the documented diagnostic, not a program
+                res["status"] = "name_clash"
+                break
             res["problems"].append({"step": step, "clause": "raised",
                                     "what": f"{type(ex).__name__}: {ex}"[:300]})
             break
